@@ -317,6 +317,20 @@ fn c01_colspan() {
     println!("NONE {}", cases);
 }
 
+
+/// C01 (D6): selectors with 65536 components of one kind overflow the u16 specificity counters
+fn c01_specificity() {
+    let mut sel = String::from("p");
+    for _ in 0..65536 { sel.push_str(".k"); }
+    let css = format!("{}{{color:#ff0000;}}", sel);
+    let r = panic::catch_unwind(move || {
+        let c = config::plain().add_css(&css);
+        match c { Ok(c) => { let _ = c.string_from_read("<p class=k>x</p>".as_bytes(), 20); }, Err(_) => {} }
+    });
+    if r.is_err() { found("c01_specificity", "css = p followed by 65536 times .k {color:#ff0000;} ; html=<p class=k>x</p>", "panic"); }
+    println!("NONE 1");
+}
+
 fn main() {
     let mode = std::env::args().nth(1).unwrap_or_default();
     panic::set_hook(Box::new(|_| {}));
@@ -324,6 +338,7 @@ fn main() {
         "c19" => c19(),
         "c19_inherit" => c19_inherit(),
         "dbg" => dbg(),
+        "c01_specificity" => c01_specificity(),
         "c01_colspan" => c01_colspan(),
         "c07_ol" => c07_ol(),
         "c16_prefix" => c16_prefix(),
